@@ -626,6 +626,17 @@ def check_helper(ctx, typ, D, seq, declared, so, col, snap_screen=True):
         col.outcome(typ, D, seq, name, so.spec, np.round(np.asarray(out, dtype=float), 9).tobytes())
         if k >= 2:
             col.nontriv("helper", typ, D, seq, name, so.kind)
+        # history: the caller scribbles on the array it was given and asks again with the same screen / holder objects;
+        # the second answer is judged like the first (a result kept between calls would hand the scribbled array back)
+        if isinstance(out, np.ndarray) and out.size and out.flags.writeable:
+            out[...] = -7.25
+            col.evaluations += 1
+            col.transitions += 1
+            out2 = fn(screen=so.obj, thetas=holder)
+            want2 = np.array([math.fsum(rows[:, j]) / k for j in range(n)]) if avg else rows
+            if not isinstance(out2, np.ndarray) or out2.shape != want2.shape or not close(out2, want2):
+                bad("helper-second-call", name, f"asked a second time (after the caller overwrote the first result in place) the helper "
+                                                f"returns {np.asarray(out2).tolist()}, expected {want2.tolist()}")
     if [t.snap() for t in ths] != t0:
         bad("mutated-sample", "helper", "a helper changed a posterior sample")
     if len(holder.thetas) != k or any(a is not t.obj for a, t in zip(holder.thetas, ths)):
